@@ -9,7 +9,7 @@ import vlib
 
 SWITCH_FIELDS = ["alias_current", "warnings_cleared", "observer_removal_checked", "remove_flow_checked", "ovf_panics",
                  "cont_check_first", "path_validated_first", "eval_args_first", "ext_guard_fixed",
-                 "guard_setvar", "guard_remove_flow", "guard_switch_default", "guard_load"]
+                 "guard_setvar", "guard_remove_flow", "guard_switch_default", "guard_load", "counter_dec_first"]
 
 UNSUPPORTED = {"SAVE", "LOAD", "LOADNEW", "LOADTEXT", "SHOWSAVE", "STACKINFO"}
 
